@@ -21,6 +21,27 @@ Theorem c20_exactly_once : forall exec cfg evs s tr,
 Proof. exact exactly_once. Qed.
 Print Assumptions c20_exactly_once.
 
+(* The same with the retry loop of doRequestWithRetries explicit: for EVERY attempt script (any number of attempts
+   per request, any chunking of a read stream, any partial delivery before a retriable failure) whose well-ending
+   attempts are long enough; the executor's answer is that of the last attempt only. *)
+Theorem c20_exactly_once_attempts : forall script cfg evs s tr,
+  attempts_ok script -> Forall (ev_kind_ok cfg) evs -> close_ok false evs ->
+  run (retry_exec script) cfg evs = (s, tr) ->
+  st_dead s = false /\ ~ In Panicked tr /\
+  Permutation (flat_map ev_calls evs) (done_calls tr ++ pending cfg s) /\
+  (forall c r, In (Done c r) tr -> justified (retry_exec script) tr c r) /\
+  (cf_linger_pos cfg = false \/ In Close evs -> pending cfg s = []).
+Proof. exact exactly_once_attempts. Qed.
+Print Assumptions c20_exactly_once_attempts.
+
+Theorem c20_retry_result_is_last_attempt : forall pre a last,
+  Forall (fun x => exists e, at_end x = ARetriable e) (a :: pre) ->
+  (forall e, at_end last <> ARetriable e) ->
+  with_retries a (pre ++ [last]) =
+    match at_end last with AOk => EOk (do_request last) | AFatal e => EErr e | ARetriable e => EErr e end.
+Proof. exact with_retries_last. Qed.
+Print Assumptions c20_retry_result_is_last_attempt.
+
 (* ... hence with distinct calls every callback fires exactly once *)
 Theorem c20_exactly_once_nodup : forall exec cfg evs s tr,
   exec_ok exec -> Forall (ev_kind_ok cfg) evs -> close_ok false evs ->
